@@ -9,7 +9,7 @@ import random
 import re
 import types
 
-from bv.common import Property, Failure, time_limit, exc_name
+from bv.common import Property, Failure, time_limit, exc_name, CaseTimeout
 
 # thresholds as floats; floor(1/threshold) is computed by the harness, independently
 THRESHOLDS = [1 / n for n in range(2, 13)] + [0.3, 0.7, 0.999, 0.0625, 0.04, 1 / 24, 0.021, 0.51,
@@ -22,18 +22,98 @@ MAPPING_KINDS = ('m', 'kw', 'mkw', 'mp', 'ud', 'cm', 'tc')
 
 # positional argument kinds of the general update op  ['up', poskind, posdata, kw]
 ITER_KINDS = ('list', 'gen', 'tuple', 'iter', 'dkeys', 'deque', 'seq', 'it', 'fset')
-MAP_KINDS = ('dict', 'mp', 'ud', 'cm', 'ctr', 'od', 'dd', 'abc')
+MAP_KINDS = ('dict', 'mp', 'ud', 'cm', 'ctr', 'od', 'dd', 'abc', 'duck')
+
+# sentinels inside the data of an 'up' op (round 5: calls that raise part-way)
+BAD = -1     # as a key: an object the counter cannot take (unhashable / __hash__ raises); as a count: a non-integer
+STOP = -2    # the caller's iterable / items() itself raises at this point
+LAZY_ITER = ('gen', 'iter', 'seq', 'it')         # iterable kinds that can raise half-way
+BADKEY_ITER = ('list', 'gen', 'tuple', 'iter', 'deque', 'seq', 'it')     # ... that can hold an unhashable element
+
+
+class _SourceError(Exception):
+    """raised by a caller-supplied iterable / mapping half-way through"""
+
+
+class _HashRaises:
+    def __hash__(self):
+        raise RuntimeError('this object refuses to be hashed')
+
+    def __repr__(self):
+        return '<_HashRaises>'
+
+
+def bad_key(n=0):
+    """a fresh object the counter cannot use as a key"""
+    n %= 5
+    if n == 0:
+        return ['#bad']
+    if n == 1:
+        return {'#bad': 1}
+    if n == 2:
+        return {'#bad'}
+    if n == 3:
+        return _HashRaises()
+    return bytearray(b'#bad')
+
+
+def bad_count(n=0):
+    """a count that is not an integer"""
+    return ('2', 1.5, None, [1])[n % 4]
+
+
+class _Collide:
+    """distinct keys that all share one hash value (equality by tag)"""
+
+    def __init__(self, tag):
+        self.tag = tag
+
+    def __hash__(self):
+        return 1
+
+    def __eq__(self, other):
+        return isinstance(other, _Collide) and other.tag == self.tag
+
+    def __repr__(self):
+        return '_Collide(%r)' % (self.tag,)
+
+
+_STOPOBJ = object()     # STOP inside a built argument
+
+
+def _raising_source(items):
+    for x in items:
+        if x is _STOPOBJ or (isinstance(x, tuple) and len(x) == 2 and x[0] is _STOPOBJ):
+            raise _SourceError('the source failed here')
+        yield x
+
+
+class _Duck:
+    """recognised as a mapping only through a callable `items` attribute; items() is a one-shot lazy iterator
+    (it may yield an unhashable key and may raise half-way)"""
+
+    def __init__(self, pairs):
+        self._pairs = list(pairs)
+
+    def items(self):
+        return _raising_source(self._pairs)
 
 # mixed key palette (case['kp'] == 1): even indices are non-string hashables (None, falsy values, a
 # 2-tuple that looks like a (key, count) pair, frozenset, bytes, float, negative int), odd indices stay
 # strings so that they can be passed as keywords
 _EXOTIC = {0: None, 2: 0, 4: ('k4', 2), 6: '', 8: frozenset({8}), 10: 2.5, 12: b'k12', 14: -1, 16: ('a', 'b'),
-           18: (), 20: 10 ** 20}
+           18: (), 20: 10 ** 20, 22: _Collide('a'), 24: _Collide('b'), 26: _Collide('c')}
+# an EQUAL key of another type (same hash, ==): adding it is adding the key itself
+_ALIAS = {2: False, 10: fractions.Fraction(5, 2), 14: -1.0, 20: 1e20, 22: _Collide('a')}
 
 
-def key(k, kp=0):
+def key(k, kp=0, alias=0):
     if kp and k % 2 == 0:
+        if alias and k in _ALIAS:
+            return _ALIAS[k]
         return _EXOTIC[k] if k in _EXOTIC else ('x', k)
+    if alias:
+        return ''.join(['k', '%d' % k])     # an equal string that is another object
     return 'k%d' % k
 
 
@@ -44,6 +124,8 @@ class _Seq:
         self._l = list(l)
 
     def __getitem__(self, i):
+        if self._l[i] is _STOPOBJ:
+            raise _SourceError('the source failed here')
         return self._l[i]
 
 
@@ -54,7 +136,7 @@ class _It:
         self._l = list(l)
 
     def __iter__(self):
-        return iter(list(self._l))
+        return _raising_source(list(self._l)) if any(x is _STOPOBJ for x in self._l) else iter(list(self._l))
 
     def __bool__(self):
         return False
@@ -79,15 +161,15 @@ class _Map(collections.abc.Mapping):
 def build_pos(kind, data, kp):
     """the object handed to update() as positional argument (standard-library semantics only)"""
     if kind in ITER_KINDS:
-        ks = [key(k, kp) for k in data]
+        ks = [_STOPOBJ if k == STOP else bad_key(i) if k == BAD else key(k, kp) for i, k in enumerate(data)]
         if kind == 'list':
             return ks
         if kind == 'gen':
-            return (k for k in ks)
+            return _raising_source(ks)
         if kind == 'tuple':
             return tuple(ks)
         if kind == 'iter':
-            return iter(ks)
+            return iter(ks) if STOP not in data else iter(_raising_source(ks))
         if kind == 'dkeys':
             return dict.fromkeys(ks).keys()
         if kind == 'deque':
@@ -100,7 +182,10 @@ def build_pos(kind, data, kp):
             return frozenset(ks)
     if kind == 'cm':
         return collections.ChainMap(*[{key(k, kp): c for k, c in part} for part in data])
-    pairs = [(key(k, kp), c) for k, c in data]
+    pairs = [(_STOPOBJ, 0) if k == STOP else (bad_key(i) if k == BAD else key(k, kp), bad_count(i) if c == BAD else c)
+             for i, (k, c) in enumerate(data)]
+    if kind == 'duck':
+        return _Duck(pairs)
     if kind == 'dict':
         return dict(pairs)
     if kind == 'mp':
@@ -164,7 +249,15 @@ class C20(Property):
             'maps, Counter, OrderedDict, defaultdict, abc.Mapping subclass), combined with keyword counts whose keys '
             'may also occur positionally; counts range over 0 .. 3w+2 (one call spanning several compactions). Keys: '
             'strings, or a mixed palette (None, 0, "", pair-like tuples, frozenset, bytes, float, big int). '
-            'Small families first: every positional kind x keyword overlap templates; all 2-counter histories of '
+            'Round 5: calls that RAISE PART-WAY inside the history - add(unhashable / __hash__ raises), update() '
+            'with such a key at the start / middle / end of a list, tuple, deque, generator, iterator, __getitem__ '
+            'sequence, an iterable or items() that raises half-way, a non-integer count in 8 mapping kinds (incl. a '
+            'duck-typed items()-only object) or among the keyword counts - after 0-4 earlier additions, followed '
+            'by more additions and a second failing call; failing reader / constructor calls; update() fed by a live '
+            'iterator over the counter itself (elements(), iterkeys()); keyword call forms of every method; equal keys '
+            'of another type, colliding hashes. After a failed call every reader is judged against the additions that '
+            'took effect (some prefix of what the call asks for, pinned down by the reported total). '
+            'Small families first: failing calls x pre-histories x follow-ups; live self-iterators; every positional kind x keyword overlap templates; all 2-counter histories of '
             'length <= 4 over {add, switch, update(other), update(self), re-create}; bulk counts around multiples of '
             'w; mixed-key streams; exact-rational thresholds; long updates at thresholds 0.001/0.01; "sparse" histories '
             '(no reader runs between consecutive mutators: all add-streams <= 5/6 over 3 keys, one most_common at every '
@@ -174,7 +267,9 @@ class C20(Property):
             'all add-streams up to length L over 3 keys for w=1..6; random mixed histories; adversarial "just '
             'survives" streams. Non-trivial = at least one compaction happened and at least one key was evicted or '
             'under-counted; distinct = distinct case.')
-    ASSUMPTIONS = ['keys are hashable with == consistent with hash; counts in mappings are non-negative ints',
+    ASSUMPTIONS = ['keys that count as additions are hashable with == consistent with hash, counts in mappings are '
+                   'non-negative ints; an element that is neither makes the call raise, and the additions of that call '
+                   'are the ones performed before the exception',
                    'model parameter w = floor(1/threshold) is computed by the harness with float division for float '
                    'thresholds; Fraction / Decimal thresholds are handed to the model as p/q (its constructor derives w)',
                    'a ThresholdCounter passed to update() counts as the mapping its items() reports at that moment']
@@ -209,8 +304,15 @@ class C20(Property):
     def cases(self, budget_s):
         rng = self.rng
         # ---- small adversarial families first
+        for c in self.fam_failing():
+            yield c
+        for c in self.fam_self_operand():
+            yield c
         for c in self.fam_kwmix():
             yield c
+        for i, c in enumerate(self.fam_kwmix()):     # the same through the keyword call forms
+            if i % 3 == 0:
+                yield dict(c, cf=1)
         for c in self.fam_two_counters(4):
             yield c
         for c in self.fam_bulk():
@@ -249,6 +351,10 @@ class C20(Property):
 
     def deep_cases(self, budget_s):
         rng = self.rng
+        for c in self.fam_failing(deep=True):
+            yield c
+        for c in self.fam_self_operand():
+            yield c
         for c in self.fam_adaptive(rng, [(th, 'size', 40000) for th in (1 / 3, 0.25, 0.34, 0.51, 0.5, 0.4, 0.15, 0.2, 1 / 6, 0.9, 0.125)] +
                                    [(th, 'under', 6000) for th in (0.5, 1 / 3, 0.3, 0.25, 0.2, 0.125)]):
             yield c
@@ -256,6 +362,67 @@ class C20(Property):
             yield c
         while True:
             yield self.random_case(rng, big=rng.random() < 0.2, rich=rng.random() < 0.5)
+
+    # calls that raise part-way inside a history, then every reader (round 5): an unhashable key / a key whose
+    # __hash__ raises handed to add(); in the middle / at either end of a list, tuple, deque, generator, iterator,
+    # __getitem__ sequence; an iterable / items() that itself raises half-way; a non-integer count in a dict,
+    # OrderedDict, UserDict, Counter, defaultdict, mappingproxy, Mapping subclass, duck-typed items() object or
+    # among the keyword counts (before / after good entries, with a positional part that was already added);
+    # failing reader and constructor calls. After 0-4 earlier additions (before / after a compaction), followed
+    # by more additions and by a second failing call.
+    FAILING = [['ax', 0], ['ax', 1], ['ax', 2], ['ax', 3], ['ax', 4],
+               ['up', 'list', [BAD], None], ['up', 'list', [0, BAD, 1], None], ['up', 'list', [0, 1, 1, BAD], None],
+               ['up', 'tuple', [1, 0, BAD, 0], None], ['up', 'deque', [BAD, 0], None],
+               ['up', 'gen', [0, STOP, 1], None], ['up', 'gen', [0, 0, BAD, 1], None], ['up', 'iter', [1, STOP], None],
+               ['up', 'iter', [BAD, 1], None], ['up', 'seq', [0, 1, STOP, 2], None], ['up', 'seq', [1, BAD], None],
+               ['up', 'it', [STOP], None], ['up', 'it', [2, BAD], None],
+               ['up', 'list', [0, BAD], [[1, 2]]], ['up', 'list', [0], [[1, BAD]]],
+               ['up', 'list', [0, 1], [[0, 1], [1, BAD], [2, 1]]], ['up', 'gen', [1, STOP], [[0, 2]]],
+               ['up', 'none', None, [[0, 1], [1, BAD], [2, 1]]], ['up', 'none', None, [[0, BAD]]],
+               ['up', 'dict', [[0, 2], [1, BAD], [2, 1]], None], ['up', 'dict', [[0, BAD]], [[1, 1]]],
+               ['up', 'dict', [[0, 1]], [[0, 2], [1, BAD]]],
+               ['up', 'od', [[1, 1], [0, 3], [2, BAD]], None], ['up', 'ud', [[1, BAD], [0, 1]], None],
+               ['up', 'ctr', [[0, 1], [1, BAD]], None], ['up', 'abc', [[0, 2], [1, BAD]], None],
+               ['up', 'mp', [[2, 1], [0, BAD], [1, 1]], None], ['up', 'dd', [[0, 1], [2, BAD]], [[0, 1]]],
+               ['up', 'duck', [[0, 1], [BAD, 1], [1, 1]], None], ['up', 'duck', [[0, 2], [STOP, 0], [1, 1]], [[1, 1]]],
+               ['up', 'duck', [[BAD, 2]], None], ['up', 'duck', [[1, 1], [0, BAD]], None],
+               ['up', 'duck', [[0, 3], [1, 1]], [[1, BAD]]],
+               ['rx', 0], ['rx', 1], ['rx', 2], ['rx', 3], ['rx', 4], ['rx', 5], ['cx', 0], ['cx', 1], ['cx', 4]]
+
+    def fam_failing(self, deep=False):
+        pres = [[], [['a', 0]], [['a', 0], ['a', 1]], [['a', 0], ['a', 0], ['a', 1], ['a', 2]]]
+        posts = [[['a', 0]], [['a', 1], ['a', 0], ['a', 0], ['q', 2]]]
+        n = 0
+        for th in (0.5, 1 / 3, 0.7, 0.25):
+            for pre in pres:
+                for f in self.FAILING:
+                    for post in posts:
+                        n += 1
+                        yield self._mk(th, 3, pre + [f] + post, 0, **({'cf': 1} if n % 5 == 0 else {}))
+                    g = self.FAILING[(n * 7) % len(self.FAILING)]
+                    yield self._mk(th, 3, pre + [f, ['a', 0], g, ['up', 'list', [0, 1, 2, 0], None]])
+        # another counter of the same class must not notice; the failing call comes from the mixed key palette
+        for th in (0.5, 1 / 3):
+            for f in self.FAILING[:40:3]:
+                yield dict(self._mk(th, 3, [['a', 0], ['i', 1], ['a', 1], f, ['i', 0], ['a', 0], ['t', 1]]), ni=2)
+                if f[0] == 'up' and not f[3]:
+                    yield self._mk(th, 3, [['a', 2], f, ['a', 4], ['a', 2, 1]], 1)
+        # ordinary traffic over many compactions, a rejected record, more traffic
+        rng = random.Random('C20-failing')
+        for th, nk, n1, n2 in ((0.1, 15, 120, 40), (0.25, 6, 40, 20), (0.04, 30, 200, 60)) + \
+                (((0.01, 80, 900, 300),) if deep else ()):
+            for f in (['ax', 0], ['up', 'list', [0, 1, BAD, 2], None], ['up', 'duck', [[0, 2], [1, BAD]], None]):
+                ks = [rng.randrange(nk) if rng.random() < 0.6 else rng.randrange(3) for _ in range(n1 + n2)]
+                yield {'th': th, 'nk': nk, 'ops': [['u', ks[:n1]], f] + [['a', k] for k in ks[n1:]] + [f, ['a', 0]]}
+
+    # the counter (or another one) feeding update() through a LIVE iterator over itself: elements() / iterkeys()
+    def fam_self_operand(self):
+        for th in (0.5, 1 / 3, 0.25, 0.7):
+            for pre in ([0], [0, 1], [0, 0, 1], [0, 1, 2], [0, 0, 1, 2, 2], [2, 1, 1, 0, 0, 0]):
+                for kind in ('te', 'tk'):
+                    yield {'th': th, 'nk': 3, 'ops': [['u', pre], [kind, 0], ['a', 1], [kind, 0]]}
+                    yield {'th': th, 'nk': 3, 'ni': 2, 'ops': [['u', pre], ['i', 1], ['a', 2], [kind, 0], [kind, 1],
+                                                                ['i', 0], [kind, 1]]}
 
     # every positional kind combined with keyword counts: disjoint, overlapping, zero and bulk counts
     def fam_kwmix(self):
@@ -499,10 +666,16 @@ class C20(Property):
         def pairs(pool, mx=3):
             ks = rng.sample(pool, rng.randint(0, min(len(pool), mx)))
             return [[k, cnt()] for k in ks]
+        hasfail = False
+        pfail = 0.12 if rich and rng.random() < 0.2 else 0
         for _ in range(nops):
             r = rng.random()
+            if pfail and rng.random() < pfail:      # a call that raises part-way / a live iterator over a counter
+                hasfail = True
+                ops.append(self.random_failing(rng, nk, strk, pick, ni))
+                continue
             if r < 0.45:
-                ops.append(['a', pick()])
+                ops.append(['a', pick()] + ([1] if rich and rng.random() < 0.15 else []))
             elif r < 0.6:
                 ops.append([rng.choice(['u', 'ug', 'ut']), [pick() for _ in range(rng.randint(0, 6))]])
             elif r < 0.72:
@@ -555,9 +728,51 @@ class C20(Property):
             c['ni'] = ni
         if rich and rng.random() < 0.5:
             c['ro'] = rng.randrange(1000)
-        if rich and ni == 1 and rng.random() < 0.3 and all(o[0] not in ('t', 'n', 'i') for o in ops):
+        if rich and ni == 1 and rng.random() < 0.3 and not hasfail and all(o[0] not in ('t', 'n', 'i') for o in ops):
             c['sp'] = 1
+        if rich and rng.random() < 0.25:
+            c['cf'] = 1
         return c
+
+    @staticmethod
+    def random_failing(rng, nk, strk, pick, ni):
+        r = rng.random()
+        if r < 0.3:
+            return ['ax', rng.randrange(5)]
+        if r < 0.4:
+            return [rng.choice(['rx', 'cx']), rng.randrange(6)]
+        if r < 0.5:
+            return [rng.choice(['te', 'tk']), rng.randrange(ni)]
+        kw = None
+        if strk and rng.random() < 0.4:
+            kw = [[k, rng.randint(0, 3)] for k in rng.sample(strk, rng.randint(1, min(len(strk), 2)))]
+        if r < 0.75:
+            ks = [pick() for _ in range(rng.randint(0, 4))]
+            if rng.random() < 0.3:
+                kind = rng.choice(LAZY_ITER)
+                ks.insert(rng.randint(0, len(ks)), STOP)
+            else:
+                kind = rng.choice(BADKEY_ITER)
+                ks.insert(rng.randint(0, len(ks)), BAD)
+            return ['up', kind, ks, kw]
+        if kw and rng.random() < 0.4:       # the failure is among the keyword counts
+            kw[rng.randrange(len(kw))][1] = BAD
+            ks = [pick() for _ in range(rng.randint(0, 3))]
+            kind = rng.choice(['list', 'gen', 'none', 'dict'])
+            if kind == 'none':
+                return ['up', 'none', None, kw]
+            return ['up', kind, ks if kind != 'dict' else [[k, rng.randint(0, 3)] for k in sorted(set(ks))], kw]
+        data = [[k, rng.randint(0, 3)] for k in rng.sample(range(nk), rng.randint(0, min(nk, 3)))]
+        kind = rng.choice(['duck', 'duck', 'dict', 'od', 'ud', 'abc', 'ctr', 'mp'])
+        pos = rng.randint(0, len(data))
+        if kind == 'duck':
+            data.insert(pos, rng.choice([[BAD, rng.randint(1, 2)], [STOP, 0], [pick(), BAD]]))
+        else:
+            free = [k for k in range(nk) if all(k != d[0] for d in data)]
+            if not free:
+                return ['ax', 0]
+            data.insert(pos, [rng.choice(free), BAD])
+        return ['up', kind, data, kw]
 
     def adversarial(self, rng, n):
         """streams built so that many keys just survive each compaction (stress the size bound / slack)"""
@@ -596,23 +811,88 @@ class C20(Property):
 
     def up_effect(self, case, op):
         """('keys', [k..]) / ('map', [[k, c]..]) / None for the positional argument of an 'up' op, in the
-        order in which the standard-library object yields them"""
+        order in which the standard-library object yields them. Where the call meets something it cannot take
+        the list ends with a marker (a str): 'B' = an unhashable key (the call is inside add() when it raises;
+        'B<c>' = a mapping entry asking for c additions of such a key), 'S' = a non-integer count / the caller's
+        object itself raised there (no add() is running)."""
         kp = case.get('kp', 0)
         kind, data = op[1], op[2]
         if kind == 'none':
             return None
-        rev = self.rev(case)
         obj = build_pos(kind, data, kp)
+        out = []
         if kind in ITER_KINDS:
-            return ('keys', [int(rev[k][1:]) for k in obj])
-        return ('map', [[int(rev[k][1:]), c] for k, c in obj.items()])
+            try:
+                for k in obj:
+                    i = self.kidx(case, k)
+                    out.append('B' if i is None else i)
+                    if i is None:
+                        break
+            except _SourceError:
+                out.append('S')
+            return ('keys', out)
+        try:
+            for k, c in obj.items():
+                if type(c) is not int:      # range(count) raises before any add()
+                    out.append('S')
+                    break
+                i = self.kidx(case, k)
+                if i is None:
+                    if c > 0:
+                        out.append('B%d' % c)      # rejected with a count of c
+                        break
+                    continue
+                out.append([i, c])
+        except _SourceError:
+            out.append('S')
+        return ('map', out)
+
+    def kw_effect(self, op):
+        """the keyword counts of an 'up' op, ending in 'S' at a non-integer count"""
+        out = []
+        for k, c in (op[3] or []):
+            if c == BAD:
+                out.append('S')
+                break
+            out.append([k, c])
+        return out
+
+    def kidx(self, case, k):
+        """index of a key object in the case's alphabet, None for an object that cannot be a key"""
+        try:
+            return int(self.rev(case)[k][1:])
+        except Exception:
+            return None
+
+    def plan(self, case, op):
+        """(sequence, fail) of one addition-type op: the additions the call asks for in the canonical order
+        (positional argument as its object yields them, then keyword counts) up to the point where it meets
+        something it cannot take; fail = None (the call is expected to return), 'B' / 'B<c>' (it raises inside
+        add(): rejected key, asked for c times) or 'S' (it raises outside add())"""
+        kind = op[0]
+        if kind == 'ax':
+            return [], 'B'
+        if kind != 'up':
+            return self.ordered_additions(case, op), None
+        seq = []
+        eff = self.up_effect(case, op)
+        parts = ([] if eff is None else [eff]) + [('map', self.kw_effect(op))]
+        for what, items in parts:
+            for it in items:
+                if isinstance(it, str):
+                    return seq, it
+                if what == 'keys':
+                    seq.append(it)
+                else:
+                    seq.extend([it[0]] * it[1])
+        return seq, None
 
     def rev(self, case):
         kp = case.get('kp', 0)
         ck = (kp, case['nk'])
         cache = self.__dict__.setdefault('_rev', {})
         if ck not in cache:
-            cache[ck] = {key(k, kp): 'k%d' % k for k in range(max(case['nk'], 22))}
+            cache[ck] = {key(k, kp): 'k%d' % k for k in range(max(case['nk'], 28))}
         return cache[ck]
 
     @staticmethod
@@ -635,19 +915,38 @@ class C20(Property):
         if kind in MAPPING_KINDS:
             pos, kw = self.legacy_split(op)
             return [k for k, c in (pos or []) + (kw or []) for _ in range(c)]
-        eff = self.up_effect(case, op)
-        out = []
-        if eff is not None:
-            out = list(eff[1]) if eff[0] == 'keys' else [k for k, c in eff[1] for _ in range(c)]
-        return out + [k for k, c in (op[3] or []) for _ in range(c)]
+        if kind == 'up':
+            return self.plan(case, op)[0]
+        return []
 
     # ------------------------------------------------------------------ model line
+    def rejected_counted(self):
+        """probe of the live implementation, once per run: does add() count a key it then rejects? (known finding
+        C20-rejected-key-counted; the model follows the repaired code - fix ba7c963 - so while the probe says
+        yes, histories in which a key is rejected are judged by the oracle only, not compared with the model)"""
+        if not hasattr(self, '_rejected_counted'):
+            from boltons.cacheutils import ThresholdCounter
+            try:
+                tc = ThresholdCounter(threshold=0.5)
+                try:
+                    tc.add(bad_key(0))
+                except Exception:
+                    pass
+                self._rejected_counted = tc.total != 0
+            except Exception:
+                self._rejected_counted = False
+            self.stats['probe:rejected_key_counted_in_total'] = self._rejected_counted
+        return self._rejected_counted
+
     def line(self, case):
-        def ps(l):
-            return ','.join('%d:%d' % (k, c) for k, c in l) or '-'
+        if self.rejected_counted() and any(op[0] == 'ax' or (op[0] == 'up' and str(self.plan(case, op)[1]).startswith('B'))
+                                           for op in case['ops']):
+            return None
+        def ps(l):      # 'B' / 'S' markers (the call raises there) travel as `!`
+            return ','.join('!' if isinstance(p, str) else '%d:%d' % (p[0], p[1]) for p in l) or '-'
 
         def ns(l):
-            return ','.join(map(str, l)) or '-'
+            return ','.join('!' if isinstance(k, str) else str(k) for k in l) or '-'
         ni = case.get('ni', 1)
         ex = self.th_exact(case)
         # exact thresholds (Fraction / Decimal) go to the model as p/q: its constructor derives the bucket width
@@ -676,9 +975,17 @@ class C20(Property):
             elif kind in MAPPING_KINDS:
                 pos, kw = self.legacy_split(op)
                 toks.append('m' + ps(pos if pos is not None else kw))
+            elif kind == 'ax':
+                toks.append('x')
+            elif kind in ('rx', 'cx'):      # a failing reader / constructor call: nothing happens to any counter
+                toks.append('u-')
+            elif kind == 'te':
+                toks.append('e%d' % op[1])
+            elif kind == 'tk':
+                toks.append('k%d' % op[1])
             elif kind == 'up':
                 eff = self.up_effect(case, op)
-                kw = op[3]
+                kw = None if op[3] is None else self.kw_effect(op)
                 if eff is None:
                     if kw:      # only keywords: update(kwargs)
                         toks.append('m' + ps(kw))
@@ -713,10 +1020,25 @@ class C20(Property):
                 return rev[obj]
             except (KeyError, TypeError):
                 return '?%r' % (obj,)
+        cf = case.get('cf', 0)      # call forms: 1 = every argument that can be passed by keyword is
+        fed = []                    # keys a live iterator over a counter handed to update()
+        phase = ['']
+        accepted = [False]
+
+        def spy(it):
+            for k in it:
+                fed.append(kname(k))
+                yield k
+
+        def update(tc, arg, kw=None):
+            if kw is None:
+                return tc.update(iterable=arg) if cf else tc.update(arg)
+            return tc.update(iterable=arg, **kw) if cf else tc.update(arg, **kw)
         try:
             with time_limit(20):
                 th = self.th_obj(case)
-                tcs = [ThresholdCounter(threshold=th) for _ in range(case.get('ni', 1))]
+                new = (lambda: ThresholdCounter(th)) if cf else (lambda: ThresholdCounter(threshold=th))
+                tcs = [new() for _ in range(case.get('ni', 1))]
                 cur = 0
                 for opi, op in enumerate(case['ops']):
                     tc = tcs[cur]
@@ -725,71 +1047,126 @@ class C20(Property):
                         cur = op[1]
                         continue
                     arg = None      # the object handed to update(); the caller empties it after the call
-                    if kind == 'a':
-                        tc.add(K(op[1]))
-                    elif kind == 'u':
-                        arg = [K(k) for k in op[1]]
-                        tc.update(arg)
-                    elif kind == 'ug':
-                        tc.update(K(k) for k in op[1])
-                    elif kind == 'ut':
-                        tc.update(tuple(K(k) for k in op[1]))
-                    elif kind == 'm':
-                        arg = {K(k): c for k, c in op[1]}
-                        tc.update(arg)
-                    elif kind == 'kw':
-                        tc.update(**{K(k): c for k, c in op[1]})
-                    elif kind == 'mkw':
-                        half = len(op[1]) // 2
-                        arg = {K(k): c for k, c in op[1][:half]}
-                        tc.update(arg, **{K(k): c for k, c in op[1][half:]})
-                    elif kind == 'mp':      # read-only mapping proxy (a Mapping that is not a dict)
-                        tc.update(types.MappingProxyType({K(k): c for k, c in op[1]}))
-                    elif kind == 'ud':
-                        arg = collections.UserDict({K(k): c for k, c in op[1]})
-                        tc.update(arg)
-                    elif kind == 'cm':
-                        half = len(op[1]) // 2
-                        tc.update(collections.ChainMap({K(k): c for k, c in op[1][:half]},
-                                                       {K(k): c for k, c in op[1][half:]}))
-                    elif kind == 'tc':      # another counter-like object exposing items()
-                        arg = collections.Counter({K(k): c for k, c in op[1]})
-                        tc.update(arg)
-                    elif kind == 'up':
-                        kw = {K(k): c for k, c in (op[3] or [])}
-                        if op[1] == 'none':
-                            if op[3] is None:
-                                tc.update()
+                    raised = None   # calls that are EXPECTED to meet something they cannot take: the caller
+                    may_raise = kind in ('ax', 'rx', 'cx', 'te', 'tk') or \
+                        (kind == 'up' and self.plan(case, op)[1] is not None)     # catches whatever they raise
+                    del fed[:]
+                    try:
+                        if kind == 'a':
+                            k = key(op[1], kp, alias=1) if len(op) > 2 and op[2] else K(op[1])
+                            if cf:
+                                tc.add(key=k)
                             else:
-                                tc.update(**kw)
-                        elif op[3] is None:
-                            arg = build_pos(op[1], op[2], kp)
-                            tc.update(arg)
-                        else:
-                            arg = build_pos(op[1], op[2], kp)
-                            tc.update(arg, **kw)
-                        spoil(kw)
-                    elif kind == 't':       # another ThresholdCounter (or this one) as the mapping
-                        tc.update(tcs[op[1]])
-                    elif kind == 'n':
-                        tcs[cur] = ThresholdCounter(threshold=th)
-                    elif kind == 'q':
-                        # the caller post-processes the list it got back, then asks again (nothing was added)
-                        res = tc.most_common(op[1])
-                        rec = {'q': [[kname(k), c] for k, c in res]}
-                        spoil(res)
-                        again = [[kname(k), c] for k, c in tc.most_common(op[1])]
-                        if again != rec['q']:
-                            rec['q2'] = again
-                        out.append(rec)
-                        continue
+                                tc.add(k)
+                        elif kind == 'ax':      # a key the counter cannot take
+                            tc.add(bad_key(op[1]))
+                        elif kind == 'rx':      # a reader call that fails (or at least must not change anything)
+                            self.failing_reader(tc, op[1], K)
+                        elif kind == 'cx':      # a constructor call that fails
+                            ThresholdCounter(threshold=(0, 1, -0.5, 1.5, 'x', None)[op[1] % 6])
+                        elif kind == 'te':      # a live iterator over a counter (maybe this one) as the iterable
+                            update(tc, spy(tcs[op[1]].elements()))
+                        elif kind == 'tk':
+                            update(tc, spy(tcs[op[1]].iterkeys()))
+                        elif kind == 'u':
+                            arg = [K(k) for k in op[1]]
+                            update(tc, arg)
+                        elif kind == 'ug':
+                            update(tc, (K(k) for k in op[1]))
+                        elif kind == 'ut':
+                            update(tc, tuple(K(k) for k in op[1]))
+                        elif kind == 'm':
+                            arg = {K(k): c for k, c in op[1]}
+                            update(tc, arg)
+                        elif kind == 'kw':
+                            tc.update(**{K(k): c for k, c in op[1]})
+                        elif kind == 'mkw':
+                            half = len(op[1]) // 2
+                            arg = {K(k): c for k, c in op[1][:half]}
+                            update(tc, arg, {K(k): c for k, c in op[1][half:]})
+                        elif kind == 'mp':      # read-only mapping proxy (a Mapping that is not a dict)
+                            update(tc, types.MappingProxyType({K(k): c for k, c in op[1]}))
+                        elif kind == 'ud':
+                            arg = collections.UserDict({K(k): c for k, c in op[1]})
+                            update(tc, arg)
+                        elif kind == 'cm':
+                            half = len(op[1]) // 2
+                            update(tc, collections.ChainMap({K(k): c for k, c in op[1][:half]},
+                                                            {K(k): c for k, c in op[1][half:]}))
+                        elif kind == 'tc':      # another counter-like object exposing items()
+                            arg = collections.Counter({K(k): c for k, c in op[1]})
+                            update(tc, arg)
+                        elif kind == 'up':
+                            kw = {K(k): (bad_count(i) if c == BAD else c) for i, (k, c) in enumerate(op[3] or [])}
+                            try:
+                                if op[1] == 'none':
+                                    if op[3] is None:
+                                        tc.update()
+                                    else:
+                                        tc.update(**kw)
+                                elif op[3] is None:
+                                    arg = build_pos(op[1], op[2], kp)
+                                    update(tc, arg)
+                                else:
+                                    arg = build_pos(op[1], op[2], kp)
+                                    update(tc, arg, kw)
+                            finally:
+                                spoil(kw)
+                        elif kind == 't':       # another ThresholdCounter (or this one) as the mapping
+                            update(tc, tcs[op[1]])
+                        elif kind == 'n':
+                            tcs[cur] = new()
+                        elif kind == 'q':
+                            # the caller post-processes the list it got back, then asks again (nothing was added)
+                            res = tc.most_common(n=op[1]) if cf else tc.most_common(op[1])
+                            rec = {'q': [[kname(k), c] for k, c in res]}
+                            spoil(res)
+                            again = [[kname(k), c] for k, c in tc.most_common(op[1])]
+                            if again != rec['q']:
+                                rec['q2'] = again
+                            out.append(rec)
+                            continue
+                    except CaseTimeout:
+                        raise
+                    except Exception as e:
+                        if not may_raise:
+                            raise
+                        raised = exc_name(e)
                     if arg is not None:
                         spoil(arg)
+                    if may_raise and raised is None and kind in ('ax', 'up'):
+                        accepted[0] = True      # the call took an argument outside the statement's domain
                     if self.dumps_after(case, opi):
-                        out.append({'d': [self.dump(t, case, kname) for t in tcs]})
+                        phase[0] = 'the readers after '
+                        rec = {'d': [self.dump(t, case, kname) for t in tcs]}
+                        phase[0] = ''
+                        if raised is not None and kind not in ('rx', 'cx'):   # whether a READER raises is free
+                            rec['raised'] = raised
+                        if accepted[0]:
+                            rec['accepted'] = True
+                        if kind in ('te', 'tk'):
+                            rec['fed'] = list(fed)
+                        out.append(rec)
         except Exception as e:  # recorded, judged by the oracle
-            out.append({'exc': exc_name(e), 'msg': str(e)[:200]})
+            out.append({'exc': exc_name(e), 'msg': str(e)[:200], 'phase': phase[0], 'accepted': accepted[0]})
         return out
+
+    @staticmethod
+    def failing_reader(tc, n, K):
+        """reader calls on arguments they cannot serve; whatever they do, no counter may change"""
+        n %= 6
+        if n == 0:
+            tc['#absent']               # KeyError
+        elif n == 1:
+            tc.get(bad_key(0))          # TypeError
+        elif n == 2:
+            bad_key(3) in tc            # RuntimeError out of __hash__
+        elif n == 3:
+            tc.most_common('x')         # TypeError
+        elif n == 4:
+            tc[bad_key(1)]
+        else:
+            tc.get('#absent', None)     # returns the default; must not insert the key
 
     READERS = ('total', 'items', 'keys', 'values', 'len', 'common', 'uncommon', 'mc', 'gets', 'has', 'elements',
                'iter', 'getitem')
@@ -811,7 +1188,8 @@ class C20(Property):
             'common': (tc.get_common_count, ident),
             'uncommon': (tc.get_uncommon_count, ident),
             'mc': (tc.most_common, pairs),
-            'gets': (lambda: [tc.get(key(k, kp)) for k in range(nk)], ident),
+            'gets': (lambda: [tc.get(key=key(k, kp), default=0) if case.get('cf') else tc.get(key(k, kp))
+                              for k in range(nk)], ident),
             'has': (lambda: [1 if key(k, kp) in tc else 0 for k in range(nk)], ident),
             'elements': (tc.elements, names),
             'iter': (tc.iterkeys, names),
@@ -880,7 +1258,7 @@ class C20(Property):
             elif 'q' in o:
                 recs.append('Q' + top(o['q']) + ('!reread' if 'q2' in o else ''))
             else:
-                recs.append(' | '.join(' '.join([
+                recs.append(('!raised ' if o.get('raised') else '') + ' | '.join(' '.join([
                     'T%d' % d['total'], 'I' + pairs(d['items']), 'K' + nats(kn(k) for k in d['keys']),
                     'V' + nats(d['values']), 'L%d' % d['len'], 'C%d' % d['common'], 'U%d' % d['uncommon'],
                     'M' + pairs(canon(d['mc'])), 'G' + nats(d['gets']), 'H' + nats(d['has']),
@@ -901,43 +1279,107 @@ class C20(Property):
         return 'R%d/%d' % (n, t) if abs(v * t - n) < 1e-6 else 'R?%r' % (v,)
 
     # ------------------------------------------------------------------ oracle (independent of the model)
-    def op_additions(self, case, op, last_items):
-        """the additions one mutator asks for, as {key name: number}; order is irrelevant to the statement"""
+    def call_effects(self, case, op, o, last_items):
+        """(seq, fail, asked) of one mutator: seq = the key names it adds in canonical order up to the point where it
+        meets something it cannot take; fail: None = the call is expected to return, 'B' / 'B<c>' = it raises
+        inside add() on a key the counter rejects, 'S' = it raises elsewhere (non-integer count, the caller's
+        iterable raised); asked = every valid addition the argument visibly asks for, as a Counter (whatever a
+        failing call performed before the exception is a part of that)"""
         kind = op[0]
-        add = collections.Counter()
-        if kind == 'a':
-            add['k%d' % op[1]] += 1
-        elif kind in ('u', 'ug', 'ut'):
-            for k in op[1]:
-                add['k%d' % k] += 1
-        elif kind in MAPPING_KINDS:     # unique keys within each of these; every given count is added
-            for k, c in op[1]:
-                add['k%d' % k] += c
-        elif kind == 'up':
-            eff = self.up_effect(case, op)
-            if eff is not None and eff[0] == 'keys':
-                for k in eff[1]:
-                    add['k%d' % k] += 1
-            elif eff is not None:
-                for k, c in eff[1]:
-                    add['k%d' % k] += c
-            for k, c in (op[3] or []):      # keyword counts come on top of the positional ones
-                add['k%d' % k] += c
-        elif kind == 't':
-            for k, c in last_items[op[1]]:
-                add[k] += c
-        return add
+        none = collections.Counter()
+        if kind in ('rx', 'cx'):
+            return [], 'S', none
+        if kind == 'ax':
+            return [], 'B', none
+        if kind in ('te', 'tk'):
+            fed = list(o.get('fed', []))
+            return fed, ('S' if o.get('raised') else None), collections.Counter(fed)
+        if kind == 't':
+            seq = [k for k, c in last_items[op[1]] for _ in range(c)]
+            return seq, None, collections.Counter(seq)
+        if kind != 'up':
+            seq = ['k%d' % k for k in self.ordered_additions(case, op)]
+            return seq, None, collections.Counter(seq)
+        seq, fail = self.plan(case, op)
+        seq = ['k%d' % k for k in seq]
+        if fail is None:
+            return seq, None, collections.Counter(seq)
+        # what the call got through on the code as it is, plus the valid keyword counts (an implementation may
+        # handle them before the positional argument, or although the positional argument raised)
+        asked = collections.Counter(seq)
+        kws = collections.Counter()
+        for k, c in (op[3] or []):
+            if c >= 0:
+                kws['k%d' % k] += c
+        eff = self.up_effect(case, op)
+        if eff is not None and any(isinstance(x, str) for x in eff[1]):     # the positional part raised
+            asked += kws
+        else:       # the keyword part raised: everything positional is in seq, and so are the keywords before
+            done = collections.Counter(seq)
+            pos = collections.Counter()
+            if eff is not None:
+                for it in eff[1]:
+                    if eff[0] == 'keys':
+                        pos['k%d' % it] += 1
+                    else:
+                        pos['k%d' % it[0]] += it[1]
+            asked = pos + kws
+            assert not (done - asked), (done, asked)
+        return seq, fail, asked
+
+    # A reading of one counter's history: (lo, hi, n, rej) - key k was added between lo[k] and hi[k] times, n
+    # additions took effect in all, rej rejected keys were counted in `total` on top (known finding). In a history
+    # without calls that raised part-way there is exactly one reading, lo = hi = the true counts, rej = 0.
+    @staticmethod
+    def _extend(world, adds, n=None, rej=0, exact=True):
+        lo, hi, total, r = world
+        hi = dict(hi)
+        for k, c in adds.items():
+            if c:
+                hi[k] = hi.get(k, 0) + c
+        if exact:
+            lo = dict(lo)
+            for k, c in adds.items():
+                if c:
+                    lo[k] = lo.get(k, 0) + c
+            n = sum(adds.values())
+        return (lo, hi, total + n, r + rej)
+
+    def successors(self, case, op, o, worlds, last_items, seen_total):
+        """the readings of the current counter's history after one mutator. A call that returns normally adds
+        what it was asked to. A call that met something it cannot take performed SOME of the additions it asks
+        for before the exception (all those before the bad element on the code as it is; none for an
+        implementation that validates its argument first; the keyword counts too for one that handles them in
+        another order) - the statement's "number of additions" counts those: per key between 0 and what the call
+        asks for, in all as many as the reported `total` says. A rejected KEY may in addition have been counted
+        in `total` although nothing was stored (known finding C20-rejected-key-counted: readings with rej > 0;
+        once on the code as it is, at most as often as the call asks for that key)."""
+        seq, fail, asked = self.call_effects(case, op, o, last_items)
+        if fail is None:
+            return [self._extend(wd, asked) for wd in worlds]
+        out = []
+        rmax = int(fail[1:] or 1) if fail.startswith('B') else 0
+        if isinstance(seen_total, int):
+            for wd in worlds:
+                for r in range(rmax + 1):
+                    n = seen_total - (wd[2] + wd[3]) - r
+                    if 0 <= n <= sum(asked.values()):
+                        out.append(self._extend(wd, asked, n, r, exact=False))
+        if not out:     # nothing explains the reported total: judged (and reported) against the code's own reading
+            out = [self._extend(wd, collections.Counter(seq)) for wd in worlds]
+        return out
 
     def oracle(self, case, obs):
         self._last = (case, obs)
         w = self.w_of(case)
         ex = self.th_exact(case)
         ni = case.get('ni', 1)
-        true = [dict() for _ in range(ni)]
-        total = [0] * ni
+        # worlds[j]: the readings (see _extend) of counter j's history that explain everything observed so far
+        worlds = [[({}, {}, 0, 0)] for _ in range(ni)]
         last_items = [[] for _ in range(ni)]
         cur = 0
         compactions = evicted = 0
+        deferred = None
         self._nt = False
         oi = 0
         for opi, op in enumerate(case['ops']):
@@ -946,19 +1388,22 @@ class C20(Property):
                 cur = op[1]
                 continue
             if kind != 'q' and not self.dumps_after(case, opi):     # sparse case: no reader runs here
-                adds = self.op_additions(case, op, last_items)
-                for k, c in adds.items():
-                    if c:
-                        true[cur][k] = true[cur].get(k, 0) + c
-                compactions += (total[cur] + sum(adds.values())) // w - total[cur] // w
-                total[cur] += sum(adds.values())
+                adds = collections.Counter('k%d' % k for k in self.ordered_additions(case, op))
+                t0 = worlds[cur][0][2]
+                worlds[cur] = [self._extend(wd, adds) for wd in worlds[cur]]
+                compactions += (t0 + sum(adds.values())) // w - t0 // w
                 continue
             if oi >= len(obs):
                 return Failure('missing', 'no observation for op %r' % (op,))
             o = obs[oi]
             oi += 1
+            if o.get('accepted'):
+                # an earlier call RETURNED NORMALLY on an argument outside the statement's domain (an unhashable
+                # key, a non-integer count): the statement says nothing about what such a counter does from then
+                # on (a float count may sit in it). Judging stops here; the correspondence still compares.
+                break
             if 'exc' in o:
-                return Failure('raises', '%s raised %s: %s' % (op, o['exc'], o.get('msg')))
+                return Failure('raises', '%s%s raised %s: %s' % (o.get('phase', ''), op, o['exc'], o.get('msg')))
             if kind == 'q':
                 # judged against the previous dump's items
                 n = op[1]
@@ -978,59 +1423,99 @@ class C20(Property):
                 if any(list(p) not in items for p in res) or len({k for k, _ in res}) != len(res):
                     return Failure('most_common', 'most_common(%d) pairs %r not drawn from items %r' % (n, res, items))
                 continue
-            if kind == 'n':
-                true[cur], total[cur] = {}, 0
-            else:
-                adds = self.op_additions(case, op, last_items)
-                before_c = total[cur] // w
-                for k, c in adds.items():
-                    if c:
-                        true[cur][k] = true[cur].get(k, 0) + c
-                total[cur] += sum(adds.values())
-                compactions += total[cur] // w - before_c
             if len(o['d']) != ni:
                 return Failure('missing', 'dump of %d counters, expected %d' % (len(o['d']), ni))
+            if kind == 'n':
+                worlds[cur] = [({}, {}, 0, 0)]
+            else:
+                t0 = worlds[cur][0][2]
+                worlds[cur] = self.successors(case, op, o, worlds[cur], last_items, o['d'][cur].get('total'))
+                compactions += worlds[cur][0][2] // w - t0 // w
             for j in range(ni):
                 d = o['d'][j]
                 who = '' if ni == 1 else 'counter %d (op %r on counter %d): ' % (j, op, cur)
                 last_items[j] = d['items']
-                f = self.judge(d, true[j], total[j], w, case, ex)
-                if f is not None:
+                alive, fails = [], []
+                for wd in worlds[j]:
+                    f = self.judge(d, wd, w, case, ex)
+                    if f is None:
+                        alive.append(self.narrow(d, wd, w))
+                    else:
+                        fails.append(f)
+                if not alive:
+                    # reported from the reading that at least explains `total`, if there is one
+                    f = ([f for f in fails if f.tag != 'total'] or fails)[0]
                     f.what = who + f.what
                     return f
+                worlds[j] = alive
+                if deferred is None and all(wd[3] > 0 for wd in alive):
+                    wd = alive[0]
+                    deferred = Failure('rejected_total', who + 'total %d after %d additions: %d key(s) that add() then '
+                                       'rejected (unhashable / __hash__ raised) were counted in total; every other clause '
+                                       'holds with total read as additions + rejected keys' % (d['total'], wd[2], wd[3]))
+                    deferred.rej = wd[3]
                 if j == cur:
                     got = dict(map(tuple, d['items']))
-                    evicted += sum(1 for k, t in true[j].items() if got.get(k, 0) < t)
+                    evicted += sum(1 for k, t in alive[0][0].items() if got.get(k, 0) < t)
         self.stats['compactions'] = self.stats.get('compactions', 0) + compactions
         self.stats['ops'] = self.stats.get('ops', 0) + len(case['ops'])
         for op in case['ops']:
             nm = op[0] if op[0] != 'up' else 'up:%s%s' % (op[1], '' if op[3] is None else '+kw')
             self.stats['op:' + nm] = self.stats.get('op:' + nm, 0) + 1
         self._nt = compactions > 0 and evicted > 0
-        return None
+        return deferred
 
-    def judge(self, o, true, total, w, case, ex):
-        """every clause of the statement on one dump of one counter"""
+    @staticmethod
+    def narrow(o, world, w):
+        """what a dump that satisfies the statement tells about the true counts of a reading with open intervals:
+        count <= true <= count + slack now, and the true counts only move by known amounts afterwards"""
+        lo, hi, total, rej = world
+        if lo == hi:
+            return world
+        slack = (total + rej) // w
+        counts = dict((k, c) for k, c in o['items'])
+        lo2 = {k: max(lo.get(k, 0), counts.get(k, 0)) for k in hi}
+        hi2 = {k: min(h, counts.get(k, 0) + slack) for k, h in hi.items()}
+        return ({k: v for k, v in lo2.items() if v}, hi2, total, rej)
+
+    def judge(self, o, world, w, case, ex):
+        """every clause of the statement on one dump of one counter, in one reading (lo, hi, additions, rej) of
+        its history: key k's true count lies in [lo[k], hi[k]] (lo = hi unless a call raised part-way), the true
+        counts sum to `additions`. `rej` > 0: the reading in which `rej` rejected keys were counted in `total`
+        (known finding C20-rejected-key-counted): `total` then stands for additions + rej in every clause"""
+        lo, hi, total, rej = world
         th = case['th']
         if o.get('reread'):
             name = sorted(o['reread'])[0]
             api = {'mc': 'most_common', 'iter': 'iterkeys'}.get(name, name)
             return Failure('reread', '%s() returned %r, and %r when asked again after the caller modified the first '
                            'result in place (nothing was added in between)' % (api, o[name], o['reread'][name]))
-        if o['total'] != total:
+        if o['total'] != total + rej:
             return Failure('total', 'total %d after %d additions' % (o['total'], total))
+        additions = total
+        total += rej
         slack = total // w
         counts = dict((k, c) for k, c in o['items'])
         if len(counts) != len(o['items']):
             return Failure('views', 'duplicate key in items %r' % (o['items'],))
         for k, c in counts.items():
-            t = true.get(k, 0)
+            t = hi.get(k, 0)
             if c > t:
                 return Failure('overcount', 'count[%s]=%d > true %d' % (k, c, t))
-        for k, t in true.items():
+        for k, t in lo.items():
             c = counts.get(k, 0)
             if t - c > slack:
                 return Failure('undercount', 'count[%s]=%d short of true %d by more than slack %d' % (k, c, t, slack))
+        if lo != hi:
+            # the true counts are known up to intervals only: some choice within them must add up to the additions
+            least = sum(max(lo.get(k, 0), counts.get(k, 0)) for k in hi)
+            most = sum(min(h, counts.get(k, 0) + slack) for k, h in hi.items())
+            if least > additions:
+                return Failure('overcount', 'the reported counts %r need at least %d additions, %d took effect'
+                               % (o['items'], least, additions))
+            if most < additions:
+                return Failure('undercount', 'of %d additions that took effect at most %d are accounted for by the '
+                               'reported counts %r within the slack %d' % (additions, most, o['items'], slack))
         if o['common'] + o['uncommon'] != total:
             return Failure('common_uncommon', '%d + %d != %d' % (o['common'], o['uncommon'], total))
         if o['common'] != sum(counts.values()):
@@ -1048,8 +1533,10 @@ class C20(Property):
                 [c for _, c in mc] != sorted((c for _, c in mc), reverse=True):
             return Failure('most_common', 'most_common() = %r for items %r' % (mc, o['items']))
         if (o['len'] * ex > 2) if ex is not None else (o['len'] > 2 / th):
-            return Failure('size_bound', 'tracks %d keys > 2/threshold = %.3f (threshold %r) after %d additions'
-                           % (o['len'], 2 / th, th, total))
+            f = Failure('size_bound', 'tracks %d keys > 2/threshold = %.3f (threshold %r) after %d additions'
+                        % (o['len'], 2 / th, th, total))
+            f.rej = rej
+            return f
         return None
 
     def nontrivial(self, case, obs):
@@ -1058,7 +1545,7 @@ class C20(Property):
     # known finding: the Lossy Counting algorithm itself exceeds 2/threshold (Lean: C20.size_bound_false);
     # an excess is that finding only when the implementation still behaves like the verified model
     def finding_size_bound(self, case, failure):
-        if failure.tag != 'size_bound':
+        if failure.tag != 'size_bound' or getattr(failure, 'rej', 0):
             return False
         if getattr(failure, 'model_agrees', None) is not False:
             return True
@@ -1079,6 +1566,15 @@ class C20(Property):
         except Exception:
             return False
 
+    # known finding until fix ba7c963 is in: add() bumps `total` before the dict operation, so a key it then
+    # rejects is counted. Matches only (1) the deferred 'rejected_total' failure - raised when EVERY clause holds
+    # in the reading "total = additions + rejected keys" and in no reading with total = additions - and (2) an
+    # excess over 2/threshold in such a reading (a compaction point passed by a rejected key is skipped).
+    def finding_rejected_total(self, case, failure):
+        if failure.tag == 'rejected_total':
+            return True
+        return failure.tag == 'size_bound' and getattr(failure, 'rej', 0) > 0
+
     @staticmethod
     def core_text(text):
         """of a correspondence text: per dump `T<total>` and the `I` pairs as a sorted list"""
@@ -1086,6 +1582,8 @@ class C20(Property):
         for rec in text.split(';'):
             if rec[:1] in ('Q', 'X'):
                 continue
+            if rec.startswith('!raised '):
+                rec = rec[len('!raised '):]
             for d in rec.split(' | '):
                 toks = d.split(' ')
                 t = [x for x in toks if x[:1] == 'T']
@@ -1101,6 +1599,8 @@ class C20(Property):
             yield {k: v for k, v in case.items() if k != 'ro'}
         if 'sp' in case:
             yield {k: v for k, v in case.items() if k != 'sp'}
+        if 'cf' in case:
+            yield {k: v for k, v in case.items() if k != 'cf'}
         for i, op in enumerate(ops):
             def rep(new):
                 return dict(case, ops=ops[:i] + [new] + ops[i + 1:])
@@ -1120,7 +1620,7 @@ class C20(Property):
                 for tgt, src in (('list', ITER_KINDS), ('dict', MAP_KINDS)):
                     if op[1] in src and op[1] not in (tgt, 'cm'):
                         yield rep(['up', tgt, op[2], op[3]])
-            elif op[0] not in ('a', 'q', 't', 'n', 'i') and len(op[1]) > 0:
+            elif op[0] not in ('a', 'q', 't', 'n', 'i', 'ax', 'rx', 'cx', 'te', 'tk') and len(op[1]) > 0:
                 for j in range(len(op[1])):
                     yield rep([op[0], op[1][:j] + op[1][j + 1:]])
             if op[0] in MAPPING_KINDS or op[0] == 'up':
